@@ -156,6 +156,9 @@ func (w *World) Render() map[string]string {
 		}
 		out["q/q.go"] = renderFile("q", quses, qchunks, "q")
 	}
+	if w.Twin > 0 {
+		out["twin/p/t.go"] = w.twinSource(pname)
+	}
 	for _, k := range sortedKeys(w.RawFiles) {
 		v := w.RawFiles[k]
 		if strings.HasPrefix(k, "p/") && strings.HasPrefix(v, "package p\n") {
@@ -276,4 +279,26 @@ func unformat(src string) string {
 		}
 	}
 	return strings.Join(out, "\n") + "\n\n\n// trailing comment\n"
+}
+
+// twinTypes: declarations of the twin package. It has the package name of p
+// and type names p uses too (S0, S1, S2, N0), with other definitions: anything
+// goderive remembers per process under a name instead of an identity mixes
+// the two packages up.
+var twinTypes = []string{
+	"type S0 struct {\n\tA []int\n\tB map[string]int\n}\n\ntype S1 struct {\n\tV S0\n\tW S2\n\tn *S1\n}\n\ntype S2 struct {\n\tF float64\n\tG [2]string\n}\n\ntype N0 []string\n",
+	"type S0 struct {\n\tA int\n\tB string\n}\n\ntype S1 struct {\n\tV S0\n\tL []S0\n\tM map[string]S0\n\tW S2\n}\n\ntype S2 struct {\n\tP *S0\n\tQ N0\n}\n\ntype N0 map[int]bool\n",
+	"type S0 []string\n\ntype S1 struct {\n\tV S0\n\tP *S0\n\tW S2\n\tK N0\n}\n\ntype S2 struct {\n\tc complex128\n\tS0\n}\n\ntype N0 float64\n",
+}
+
+func (w *World) twinSource(pname string) string {
+	var sb strings.Builder
+	sb.WriteString("// Package " + pname + " (twin/p) is generated for in the same run as p, has its name and declares types of the same names.\npackage " + pname + "\n\n")
+	sb.WriteString(twinTypes[(w.Twin-1)%len(twinTypes)])
+	fmt.Fprintf(&sb, "\nfunc tw0(a, b *S1) bool { return %s(a, b) }\n", w.prefixOf("equal"))
+	fmt.Fprintf(&sb, "\nfunc tw1(a, b *S1) int { return %s(a, b) }\n", w.prefixOf("compare"))
+	fmt.Fprintf(&sb, "\nfunc tw2(a *S1) uint64 { return %s(a) }\n", w.prefixOf("hash"))
+	fmt.Fprintf(&sb, "\nfunc tw3(a *S1) *S1 { return %s(a) }\n", w.prefixOf("clone"))
+	fmt.Fprintf(&sb, "\nfunc tw4(a, b *S1) { %s(a, b) }\n", w.prefixOf("deepcopy"))
+	return sb.String()
 }
